@@ -43,6 +43,25 @@ def _cases(tier, rng):
         yield {'kind': 'mux', 'term': [['map', ['raise_if_mod', 2, 0]], ['err_map', v]], 'items': [2, 1, 4, 4, 3], 'fail': [2, 0], 'op': 'map'}
         yield {'kind': 'mux', 'term': [['group_by', ['mod', 3], [['map', ['raise_if_mod', 2, 0]], ['err_map', v], ['count', False]]]],
                'items': [2, 1, 4, 4, 3, 6], 'fail': [2, 0], 'op': 'map'}
+    # a value the typed state array of scan rejects (int seed, float accumulator): one mux error, state unchanged, the key
+    # goes on as if the item were absent — from the SEED when the rejected value was the first of the lifetime
+    half = {'f': '3fe0000000000000'}
+    for seed in (10, 0, -3):
+        for red in (False, True):
+            for h in (['ignore'], ['route'], ['err_map', -1]):
+                for items in ([half, 5, 7], [1, half, 5], [half, half, 2], [4, 6, half]):
+                    yield {'kind': 'mux', 'term': [['scan', ['add'], seed, red, None], h], 'items': items, 'fail': [1, 1], 'op': 'typed'}
+            # under roll (slot reuse): compared with the model only (the oracle below handles flat and group_by pipelines)
+            yield {'kind': 'mux', 'term': [['roll', 2, 2, [['scan', ['add'], seed, red, None], ['ignore']]]], 'items': [1, 2, half, 5, half, 7]}
+    for _ in range({'quick': 150, 'thorough': 1500, 'search': 80}[tier]):
+        items = [rng.choice([half, rng.randint(-5, 9), rng.randint(-5, 9)]) for _ in range(rng.choice([1, 2, 3, 5, 8]))]
+        h = rng.choice([['ignore'], ['route'], ['err_map', -1], None])
+        pipe = [['scan', ['add'], rng.choice([0, 10, -3]), rng.random() < 0.4, None]] + ([h] if h else [])
+        if h and rng.random() < 0.4:
+            pipe = pipe + rng.choice([[['count', False]], [['to_list']], [['last']]])
+        if rng.random() < 0.4:
+            pipe = [['group_by', ['const', 0], pipe]] if rng.random() < 0.5 else pipe
+        yield {'kind': 'mux', 'term': pipe, 'items': items, 'fail': [1, 1], 'op': 'typed'}
     n = {'quick': 1500, 'thorough': 10000, 'search': 600}[tier]
     for _ in range(n):
         op, (k, r), kind = failing_op(rng)
@@ -113,12 +132,16 @@ def _oracle(case, r):
     names = [s[0] for s in pipe]
     hidx = [i for i, s in enumerate(pipe) if s[0] in ('ignore', 'err_map', 'err_map_name', 'route')]
     xs = [dec(x) for x in case['items']]
-    fails = [x for x in xs if x % k == rr]
+    typed = case.get('op') == 'typed'
+    # 'typed': scan with an int seed; the items that fail are the floats (the typed state array rejects the float accumulator)
+    is_fail = (lambda x: isinstance(x, float)) if typed else (lambda x: x % k == rr)
+    errname = 'TypeError' if typed else 'ValueError'
+    fails = [x for x in xs if is_fail(x)]
     if not hidx:
         # unhandled: on_error at the first failing item, nothing after
         flat = [o for c in r['chunks'] for o in c]
         if fails:
-            first = [i for i, x in enumerate(xs) if x % k == rr][0]
+            first = [i for i, x in enumerate(xs) if is_fail(x)][0]
             if case['op'] == 'filter' and False:
                 pass
             got_pos = [i for i, c in enumerate(r['chunks']) if any('x' in o for o in c)]
@@ -144,10 +167,10 @@ def _oracle(case, r):
                 gs.setdefault(kf(x), []).append(x)
             want = []
             for gk, gx in gs.items():
-                ref = muxprop.quiet(muxreal.run_mux, pipe, [enc(x) for x in gx if x % k != rr], False)
+                ref = muxprop.quiet(muxreal.run_mux, pipe, [enc(x) for x in gx if not is_fail(x)], False)
                 want += muxprop.items_of(muxreal.trunc_chunks(ref['chunks']))
         else:
-            clean_items = [enc(x) for x in xs if x % k != rr]
+            clean_items = [enc(x) for x in xs if not is_fail(x)]
             ref = muxprop.quiet(muxreal.run_mux, t, clean_items, False)
             want = muxprop.items_of(muxreal.trunc_chunks(ref['chunks']))
         if grouped:
@@ -161,13 +184,13 @@ def _oracle(case, r):
                     % (muxprop.json.dumps(t)[:200], case['items'], str(got)[:200], str(want)[:200]))
         if h[0] == 'route':
             dead = r.get('dead', [])
-            if dead != ['ValueError'] * len(fails) + ['<completed>']:
-                return 'error router: dead letter received %s, expected %d ValueError then completion' % (dead, len(fails))
+            if dead != [errname] * len(fails) + ['<completed>']:
+                return 'error router: dead letter received %s, expected %d %s then completion' % (dead, len(fails), errname)
     else:
         # error.map: the stage right after the handler sees, per source position, the mapped value in place
         if len(pipe) == hidx[0] + 1 and not grouped and case['op'] in ('map', 'starmap'):
             mapped = h[1] if h[0] == 'err_map' else 'ValueError'
-            want = [[]] + [[{'i': mapped}] if x % k == rr else [{'i': enc((x, x)[0])}] for x in xs] + [[]]
+            want = [[]] + [[{'i': mapped}] if is_fail(x) else [{'i': enc((x, x)[0])}] for x in xs] + [[]]
             if case['op'] == 'starmap':
                 return None
             if r['chunks'] != want:
@@ -180,6 +203,8 @@ def nontrivial(case, r):
         return True
     k, rr = case['fail']
     xs = case['items']
+    if case.get('op') == 'typed':
+        return any(isinstance(x, dict) for x in xs) and any(not isinstance(x, dict) for x in xs)
     return any(x % k == rr for x in xs) and any(x % k != rr for x in xs)
 
 
@@ -188,7 +213,7 @@ def tags(case, r):
     if 'fail' in case:
         k, rr = case['fail']
         xs = case['items']
-        f = [x % k == rr for x in xs]
+        f = [isinstance(x, dict) for x in xs] if case.get('op') == 'typed' else [x % k == rr for x in xs]
         if f and f[0]:
             t.append('first-item-fails')
         if f and f[-1]:
